@@ -149,6 +149,7 @@ Inductive xcmd :=
 | XWriteOwn (b e : nat)       (* b,ew  : lines b..e-1 to the own path *)
 | XWriteOther                 (* w other / b,ew other *)
 | XReload (content : bytes)   (* e! *)
+| XEdit (content : bytes)     (* e without a file name and without !: the guard; only if it passes, the re-read of e! *)
 | XQuit.                      (* q without ! *)
 
 Record xst := mkx { xs : st; xdisk : U.text }.       (* xdisk: ghost, the lines the file holds *)
@@ -182,6 +183,9 @@ Definition xstep (x : xst) (c : xcmd) : xst :=
         (if (b =? 0) && (e =? length (lns (lb (xs x)))) then utext (lb (xs x)) else U.slice (utext (lb (xs x))) b (e - b))
   | XWriteOther => mkx (bump (xs x)) (xdisk x)
   | XReload c => mkx (bump (x_reload c (xs x))) (U.lines_of c)
+  | XEdit c =>
+    let '(s1, m) := bufs_modified (xs x) in            (* ec_edit starts with the guard, before it looks at its argument *)
+    if m then mkx (bump s1) (xdisk x) else mkx (bump (x_reload c s1)) (U.lines_of c)
   | XQuit => mkx (bump (x_quit (xs x))) (xdisk x)
   end.
 
@@ -197,7 +201,7 @@ Proof. induction acts as [|a acts IH]; intro e; [reflexivity|]. cbn [map D.run_d
 
 Lemma XInv_step x c : XInv x -> XInv (xstep x c).
 Proof.
-  intros (e & RE & R & DK). destruct c as [ln|b en| |c|]; cbn [xstep].
+  intros (e & RE & R & DK). destruct c as [ln|b en| |c|c|]; cbn [xstep].
   - (* a command line of the ex model *)
     assert (H0 : DRel (xdisk x) (clear_written (xs x)) e) by (split; [exact RE|]; split; [exact R | exact DK]).
     destruct (step_ex_command D.ebuf (DRel (xdisk x)) drun1 (DRel_same _) (DRel_edit _) (DRel_bump _) (DRel_undo _) (DRel_save _)
@@ -217,6 +221,17 @@ Proof.
     cbn [D.run_dop D.lb D.disk xs xdisk]. unfold x_reload. cbn [lb bump set_lb].
     assert (LEN : length (U.ln (D.lb e)) = length (lns (lb (xs x)))) by (destruct R as ((Ln & _) & _); rewrite Ln; apply utext_length).
     rewrite LEN. split; [apply Rlz_bump, Rlz_saved0, Rlz_edit, R | reflexivity].
+  - (* e without !: refused = two bumps; otherwise bump, reload, bump *)
+    unfold bufs_modified. pose proof (Rlz_bump _ _ R) as RB. destruct (lbuf_modified (lb (xs x))) as [l m]. cbn [fst] in RB.
+    destruct m.
+    + exists (D.run_dop (D.run_dop e D.DBump) D.DBump). split; [apply reach_step, reach_step, RE|].
+      cbn [D.run_dop D.lb D.disk xs xdisk lb bump set_lb emit]. split; [apply Rlz_bump, RB | exact DK].
+    + exists (D.run_dop (D.run_dop (D.run_dop e D.DBump) (D.DReload c)) D.DBump).
+      split; [apply reach_step, reach_step, reach_step, RE|].
+      cbn [D.run_dop D.lb D.disk xs xdisk]. unfold x_reload. cbn [lb bump set_lb].
+      assert (LEN : length (U.ln (U.bump (D.lb e))) = length (lns l)) by (destruct RB as ((Ln & _) & _); rewrite Ln; apply utext_length).
+      change (fst (U.lbuf_modified (D.lb e))) with (U.bump (D.lb e)). rewrite LEN.
+      split; [apply Rlz_bump, Rlz_saved0, Rlz_edit, RB | reflexivity].
   - exists (D.run_dop (D.run_dop e D.DBump) D.DBump). split; [apply reach_step, reach_step, RE|].
     cbn [D.run_dop D.lb D.disk xs xdisk]. unfold x_quit, bufs_modified.
     pose proof (Rlz_bump _ _ R) as RB. destruct (lbuf_modified (lb (xs x))) as [l m]. cbn [fst] in RB.
@@ -294,6 +309,41 @@ Theorem ex_quit_refused (x : xst) :
 Proof.
   intro M. cbn [xstep xs xdisk]. unfold x_quit, bufs_modified. destruct (lbuf_modified (lb (xs x))) as [l m] eqn:E.
   cbn [snd] in M. subst m. unfold lbuf_modified in E. inversion E; subst. cbn. auto.
+Qed.
+
+(* e without a file name and without ! : on a buffer reported modified it is refused -- text, undo history, undo position and
+   ghost disk as before, only the command counter and the message move *)
+Theorem ex_edit_refused (x : xst) c :
+  snd (lbuf_modified (lb (xs x))) = true ->
+  texts (xs (xstep x (XEdit c))) = texts (xs x) /\
+  hist (lb (xs (xstep x (XEdit c)))) = hist (lb (xs x)) /\ hist_u (lb (xs (xstep x (XEdit c)))) = hist_u (lb (xs x)) /\
+  xdisk (xstep x (XEdit c)) = xdisk x /\ snd (lbuf_modified (lb (xs (xstep x (XEdit c))))) = true.
+Proof.
+  intro M. cbn [xstep xs xdisk]. unfold bufs_modified. destruct (lbuf_modified (lb (xs x))) as [l m] eqn:E.
+  cbn [snd] in M. subst m. unfold lbuf_modified in E. inversion E; subst. cbn. repeat split.
+Qed.
+
+(* after ANY script it goes through only when the text equals the ghost disk, and then the text is the file's, the ghost disk is
+   the text and the dirty test reports clean *)
+Theorem ex_edit_sound input wa cs c :
+  let x := xrun (xinit input wa) cs in
+  snd (lbuf_modified (lb (xs x))) = false ->
+  utext (lb (xs x)) = xdisk x /\
+  utext (lb (xs (xstep x (XEdit c)))) = U.lines_of c /\ xdisk (xstep x (XEdit c)) = U.lines_of c /\
+  snd (lbuf_modified (lb (xs (xstep x (XEdit c))))) = false.
+Proof.
+  cbv zeta. intro M. split; [apply ex_clean_sound, M|].
+  pose proof (XInv_step _ (XEdit c) (XInv_run cs _ (XInv_init input wa))) as I.
+  set (x := xrun (xinit input wa) cs) in *.
+  assert (DKx : xdisk (xstep x (XEdit c)) = U.lines_of c).
+  { cbn [xstep]. unfold bufs_modified. destruct (lbuf_modified (lb (xs x))) as [l m]. cbn [snd] in M. subst m. reflexivity. }
+  assert (F : snd (lbuf_modified (lb (xs (xstep x (XEdit c))))) = false).
+  { cbn [xstep]. unfold bufs_modified. destruct (lbuf_modified (lb (xs x))) as [l m]. cbn [snd] in M. subst m.
+    cbn [xs]. unfold x_reload. cbn [lb bump set_lb].
+    match goal with |- snd (lbuf_modified (fst (lbuf_modified (lbuf_saved0 ?q)))) = false => generalize q end.
+    intro q. unfold lbuf_saved0, lbuf_modified. cbn. apply negb_false_iff, Z.eqb_refl. }
+  split; [|split; [exact DKx | exact F]].
+  rewrite <- DKx. apply XInv_clean; assumption.
 Qed.
 
 End Run.
